@@ -51,6 +51,8 @@ type report struct {
 	Files  int            `json:"files"`
 }
 
+var stmtYields bool
+
 var (
 	rep     = report{Counts: map[string]int{}}
 	nextID  = 1
@@ -75,6 +77,7 @@ func newSite(kind string, fset *token.FileSet, pos token.Pos, fn, note string) i
 func main() {
 	dir := flag.String("dir", "", "root of the scratch copy (module root)")
 	out := flag.String("sites", "", "write the site table (JSON) here")
+	flag.BoolVar(&stmtYields, "stmt-yields", false, "R5: also insert a yield point before every statement of every block (finer interleavings; the generated parser file is left at function/loop granularity)")
 	flag.Parse()
 	if *dir == "" {
 		die("need -dir")
@@ -236,6 +239,15 @@ func doFile(p *packages.Package, f *ast.File, filename string) {
 			c.edits = append(c.edits, edit{start: c.off(x.Body.Lbrace) + 1, end: c.off(x.Body.Lbrace) + 1,
 				text: fmt.Sprintf(" simrt.Step(%d);", id)})
 			return true
+		case *ast.BlockStmt:
+			c.stmtYields(x.List)
+			return true
+		case *ast.CaseClause:
+			c.stmtYields(x.Body)
+			return true
+		case *ast.CommClause:
+			c.stmtYields(x.Body)
+			return true
 		case *ast.CallExpr:
 			if isPkgSel(info, x.Fun, "time", "Now") && len(x.Args) == 0 {
 				newSite("clock", c.fset, x.Pos(), c.curFunc(), "")
@@ -326,6 +338,25 @@ func doFile(p *packages.Package, f *ast.File, filename string) {
 		die("%v", err)
 	}
 	rep.Files++
+}
+
+// stmtYields (R5) inserts a yield point before every statement of a statement list except the
+// first one of a function/loop body (R4 already put one there) and declarations of labels.
+func (c *fileCtx) stmtYields(list []ast.Stmt) {
+	if !stmtYields || strings.HasSuffix(c.fset.Position(c.f.Pos()).Filename, "gram_y.go") {
+		return
+	}
+	for i, st := range list {
+		if i == 0 {
+			continue
+		}
+		switch st.(type) {
+		case *ast.EmptyStmt, *ast.CaseClause, *ast.CommClause:
+			continue
+		}
+		id := newSite("step_stmt", c.fset, st.Pos(), c.curFunc(), "")
+		c.edits = append(c.edits, edit{start: c.off(st.Pos()), end: c.off(st.Pos()), text: fmt.Sprintf("simrt.Step(%d); ", id), prio: -2})
+	}
 }
 
 func recvName(e ast.Expr) string {
